@@ -21,6 +21,8 @@ pub enum Ck {
 pub struct C13 {
   pub kind: Ck,
   pub cold: bool,
+  /// hot source that also emits one item synchronously inside every subscribe call (and stays subscribed)
+  pub greet: bool,
   pub take1: bool,
   pub max_steps: usize,
   pub observers: usize,
@@ -47,7 +49,7 @@ impl Harness for C13 {
     format!(
       "C13/{:?}/{}/{}/O{}{}/L{}",
       self.kind,
-      if self.cold { "cold" } else { "hot" },
+      if self.cold { "cold" } else if self.greet { "hotsync" } else { "hot" },
       if self.take1 { "take1" } else { "direct" },
       self.observers,
       if self.membership_only { "m" } else { "" },
@@ -57,7 +59,18 @@ impl Harness for C13 {
   fn run(&self) -> Verdict {
     let clock = Arc::new(Mutex::new(0usize));
     let hot = Hot::new(clock.clone());
-    let cold_script = if self.cold { sym_script("cs", 2, true) } else { vec![] };
+    let cold_script = if self.cold {
+      sym_script("cs", 2, true)
+    } else if self.greet {
+      vec![Ev::Next(Sym::var("g.x", 9))]
+    } else {
+      vec![]
+    };
+    if self.greet {
+      *hot.greeting.lock().unwrap() = cold_script.clone();
+    }
+    // the events every subscription of the source delivers synchronously
+    let sync = self.cold || self.greet;
     let counter = Arc::new(Mutex::new(0usize));
     let src: Obs = if self.cold { cold(cold_script.clone(), Some(counter.clone())) } else { hot.observable() };
     let conn = match self.kind {
@@ -87,7 +100,7 @@ impl Harness for C13 {
     let mut terminal: Option<REnd> = None; // of the shared subject
     let mut trace: Vec<String> = vec![];
     let take1 = self.take1;
-    let sig = format!("connectable={:?};source={};via={}", self.kind, if self.cold { "cold" } else { "hot" }, if take1 { "take(1)" } else { "direct" });
+    let sig = format!("connectable={:?};source={};via={}", self.kind, if self.cold { "cold" } else if self.greet { "hotsync" } else { "hot" }, if take1 { "take(1)" } else { "direct" });
 
     macro_rules! fail {
       ($role:expr, $msg:expr) => {
@@ -174,7 +187,7 @@ impl Harness for C13 {
           if self.kind != Ck::Publish && was_live && !src_live && terminal.is_none() {
             src_live = true;
             src_subs += 1;
-            if self.cold {
+            if sync {
               for e in cold_script.iter() {
                 if terminal.is_none() {
                   feed(&mut robs, &mut history, &mut terminal, e, take1);
@@ -212,7 +225,7 @@ impl Harness for C13 {
             if terminal.is_none() {
               src_live = true;
               src_subs += 1;
-              if self.cold {
+              if sync {
                 for e in cold_script.iter() {
                   if terminal.is_none() {
                     feed(&mut robs, &mut history, &mut terminal, e, take1);
@@ -351,7 +364,14 @@ pub fn plan(tier: Tier, _seed: u64) -> Plan {
   for kind in [Ck::Publish, Ck::RefCount, Ck::Replay] {
     for cold in [false, true] {
       for take1 in [false, true] {
-        h.push(Arc::new(C13 { kind, cold, take1, max_steps: steps, observers: if tier == Tier::Quick { 2 } else { 3 }, membership_only: false }));
+        h.push(Arc::new(C13 { kind, cold, greet: false, take1, max_steps: steps, observers: if tier == Tier::Quick { 2 } else { 3 }, membership_only: false }));
+      }
+    }
+    // a hot source that also emits inside subscribe (publish, ref_count; replay over synchronous
+    // sources is saturated by its known findings)
+    if kind != Ck::Replay {
+      for take1 in [false, true] {
+        h.push(Arc::new(C13 { kind, cold: false, greet: true, take1, max_steps: steps.min(5), observers: 2, membership_only: false }));
       }
     }
     // three subscribers joining and leaving in every order over a hot source (sliced);
@@ -361,7 +381,7 @@ pub fn plan(tier: Tier, _seed: u64) -> Plan {
         break;
       }
       for op1 in 0..4i64 {
-        let inner: Arc<dyn Harness> = Arc::new(C13 { kind, cold: false, take1: false, max_steps: 5, observers: 3, membership_only: true });
+        let inner: Arc<dyn Harness> = Arc::new(C13 { kind, cold: false, greet: false, take1: false, max_steps: 5, observers: 3, membership_only: true });
         h.push(Arc::new(crate::explore::Pinned {
           inner,
           pins: vec![("steps".to_string(), 5), ("h0.op".to_string(), 0), ("h0.who".to_string(), who), ("h1.op".to_string(), op1)],
@@ -374,7 +394,7 @@ pub fn plan(tier: Tier, _seed: u64) -> Plan {
     max_paths: if tier == Tier::Quick { 6000 } else { 400000 },
     max_pc: 96,
     bounds: format!(
-      "histories of <= {} calls over subscribe_i/unsubscribe_i/connect/disconnect/source emits/terminates, {} subscribers attached directly or through take(1), hot source or cold source emitting <= 2 items synchronously; one publish connection at a time; joining a terminated publish/ref_count subject is left free",
+      "histories of <= {} calls over subscribe_i/unsubscribe_i/connect/disconnect/source emits/terminates, {} subscribers attached directly or through take(1), hot source, hot source that also emits one item inside subscribe (publish, ref_count), or cold source emitting <= 2 items synchronously; one publish connection at a time; joining a terminated publish/ref_count subject is left free",
       steps,
       if tier == Tier::Quick { 2 } else { 3 }
     ),
@@ -395,6 +415,7 @@ pub fn by_name(name: &str) -> Option<Arc<dyn Harness>> {
   Some(Arc::new(C13 {
     kind,
     cold: p[2] == "cold",
+    greet: p[2] == "hotsync",
     take1: p[3] == "take1",
     observers: p[4].trim_start_matches('O').trim_end_matches('m').parse().ok()?,
     membership_only: p[4].ends_with('m'),
